@@ -30,7 +30,7 @@ def sh(cmd, cwd=wt, timeout=5400, e=env):
 
 
 def clean():
-    sh("git checkout -q -- . ; git clean -fdq -e out -e target -e SEED_TASK.md")
+    sh("git reset -q --hard HEAD ; git clean -fdq -e out -e target -e SEED_TASK.md")
 
 
 # the harness at /verif HEAD needs the hooks of /repo HEAD: judge every change on /repo's HEAD
@@ -53,16 +53,22 @@ for k in ks:
     jobs = " -j6"
     res = {}
     clean()
-    rc, o = sh(f"git apply {out}/demo.diff")
-    assert rc == 0, o
+    rc, o = sh(f"git apply {out}/demo.diff || git apply --3way {out}/demo.diff")
+    if rc != 0:
+        print(f"{pid}-{k}: demo.diff does not apply on /repo HEAD: {o[-300:]}", flush=True)
+        clean()
+        continue
     rc, o = sh(demo_cmd + jobs if " -j" not in demo_cmd else demo_cmd)
     res["demo_passes_without_patch"] = rc == 0
-    rc, o = sh(f"git apply {out}/patch.diff")
-    assert rc == 0, o
+    rc, o = sh(f"git apply {out}/patch.diff || git apply --3way {out}/patch.diff")
+    if rc != 0:
+        print(f"{pid}-{k}: patch.diff does not apply on /repo HEAD: {o[-300:]}", flush=True)
+        clean()
+        continue
     rc, o = sh(demo_cmd + jobs if " -j" not in demo_cmd else demo_cmd)
     res["demo_fails_with_patch"] = rc != 0
     clean()
-    sh(f"git apply {out}/patch.diff")
+    sh(f"git apply {out}/patch.diff || git apply --3way {out}/patch.diff")
     rc, o = sh(ex_cmd + jobs if " -j" not in ex_cmd else ex_cmd)
     res["existing_tests_pass_with_patch"] = rc == 0
     if rc != 0:
